@@ -855,6 +855,10 @@ impl LocalDestination {
             .parent()
             .ok_or_else(|| LocalDestinationErrorKind::FileDoesNotHaveParent(filename.clone()))?;
         fs::create_dir_all(dir).map_err(LocalDestinationErrorKind::DirectoryCreationFailed)?;
+        // a file from a previous restore may exist; hard_link doesn't overwrite
+        if filename.symlink_metadata().is_ok() {
+            fs::remove_file(&filename).map_err(LocalDestinationErrorKind::FileRemovalFailed)?;
+        }
         fs::hard_link(&source_path, &filename).map_err(|err| {
             LocalDestinationErrorKind::HardLinkingFailed {
                 source_path,
